@@ -7,6 +7,7 @@
 #include "pool.h"
 
 world W;
+#define MSGV(...) do { if (W.msg_oracle) sim_violation(__VA_ARGS__); else { sim_probe("msg.oracle_off_deviation"); } } while (0)
 op_fn world_op_exec = NULL;
 static msg_rec g_msgs[MAX_MSG];
 
@@ -60,6 +61,7 @@ void world_reset(const plan_t *p) {
 	W.msgs = g_msgs;
 	W.nmsgs = 0;
 	W.npools = MAX_POOLS;
+	W.msg_oracle = 1;
 }
 
 int world_create_pool(int k, int n, uint32_t flags, int hooks) {
@@ -136,17 +138,17 @@ void world_msg_cb(tpt_p tpt, void *udata) {
 	tpt_p dst;
 	if ((uintptr_t)udata < (uintptr_t)&g_msgs[0] || (uintptr_t)udata >= (uintptr_t)&g_msgs[W.nmsgs] ||
 	    0 != (((uintptr_t)udata - (uintptr_t)&g_msgs[0]) % sizeof(msg_rec))) {
-		sim_violation("msg-bad-arg", "message callback invoked with an argument %p that no send passed", udata);
+		MSGV("msg-bad-arg", "message callback invoked with an argument %p that no send passed", udata);
 		return;
 	}
 	pw = &W.pool[m->pool];
 	dst = (m->dst < 0) ? pw->pvt : pw->thr[m->dst];
-	if (pw->destroyed) { sim_violation("callback-after-destroy", "message %d callback ran after tp_destroy returned", m->id); return; }
-	if (!m->sent) { sim_violation("msg-never-sent", "message %d executed but was never sent", m->id); return; }
+	if (pw->destroyed) { MSGV("callback-after-destroy", "message %d callback ran after tp_destroy returned", m->id); return; }
+	if (!m->sent) { MSGV("msg-never-sent", "message %d executed but was never sent", m->id); return; }
 	m->exec_count++;
 	sim_hash_u64(0x3e5a0000ull + (uint64_t)m->id);
 	if (m->exec_count > 1) {
-		sim_violation("msg-duplicate", "message %d (op %d, dst %d) executed %d times (first on fiber %d, now on fiber %d)", m->id, m->op, m->dst, m->exec_count, m->exec_fiber, me);
+		MSGV("msg-duplicate", "message %d (op %d, dst %d) executed %d times (first on fiber %d, now on fiber %d)", m->id, m->op, m->dst, m->exec_count, m->exec_fiber, me);
 		return;
 	}
 	m->exec_fiber = me;
@@ -154,7 +156,7 @@ void world_msg_cb(tpt_p tpt, void *udata) {
 	m->exec_sync = (m->in_send && m->send_fiber == me);
 	sim_log("msg %d exec on fiber %d tpt-idx %d sync=%d", m->id, me, world_thr_index(pw, tpt), m->exec_sync);
 	if (tpt != dst) {
-		sim_violation("msg-wrong-thread", "message %d for dst %d delivered with thread argument index %d", m->id, m->dst, world_thr_index(pw, tpt));
+		MSGV("msg-wrong-thread", "message %d for dst %d delivered with thread argument index %d", m->id, m->dst, world_thr_index(pw, tpt));
 		return;
 	}
 	if (m->exec_sync) {
@@ -163,7 +165,7 @@ void world_msg_cb(tpt_p tpt, void *udata) {
 		if ((m->flags & TP_MSG_F_FORCE) && !m->dst_running) { ok = 1; sim_probe("msg.force_direct"); }
 		if ((m->flags & TP_MSG_F_FAIL_DIRECT) && sim_qwrite_fails() > m->qfail_before) { ok = 1; sim_probe("msg.fail_direct"); }
 		if (!ok) {
-			sim_violation("msg-direct-unjustified", "message %d (flags %x, dst %d running=%d) was executed synchronously in the sender although no direct-call condition held", m->id, m->flags, m->dst, m->dst_running);
+			MSGV("msg-direct-unjustified", "message %d (flags %x, dst %d running=%d) was executed synchronously in the sender although no direct-call condition held", m->id, m->flags, m->dst, m->dst_running);
 			return;
 		}
 	} else {
@@ -171,18 +173,18 @@ void world_msg_cb(tpt_p tpt, void *udata) {
 		if (m->dst >= 0) {
 			if (cur != dst) {
 				int ci = -2; pool_w *cp = cur ? world_pool_of_tpt(cur, &ci) : NULL;
-				sim_violation("msg-wrong-thread", "queued message %d for thread %d of pool %d executed on fiber %d (pool %d thread %d)", m->id, m->dst, m->pool, me, cp ? (int)(cp - W.pool) : -1, ci);
+				MSGV("msg-wrong-thread", "queued message %d for thread %d of pool %d executed on fiber %d (pool %d thread %d)", m->id, m->dst, m->pool, me, cp ? (int)(cp - W.pool) : -1, ci);
 				return;
 			}
 		} else {
 			if (!cur || tpt_get_tp(cur) != pw->tp || cur == pw->pvt) {
-				sim_violation("msg-wrong-thread", "message %d for the virtual thread of pool %d executed outside that pool's workers (fiber %d)", m->id, m->pool, me);
+				MSGV("msg-wrong-thread", "message %d for the virtual thread of pool %d executed outside that pool's workers (fiber %d)", m->id, m->pool, me);
 				return;
 			}
 			sim_probe("msg.pvt_delivered");
 		}
 		if (!m->dst_running && !W.teardown) {
-			sim_violation("msg-to-stopped", "message %d queued-delivered to thread %d which the harness never started", m->id, m->dst);
+			MSGV("msg-to-stopped", "message %d queued-delivered to thread %d which the harness never started", m->id, m->dst);
 			return;
 		}
 	}
@@ -225,19 +227,19 @@ int world_send(msg_rec *m, tpt_p src_explicit) {
 	/* return-code oracle */
 	if (0 == rc) {
 		if (m->exec_count == 0 && !m->dst_running) {
-			sim_violation("msg-accepted-for-stopped", "send of message %d to never-started thread %d returned 0 without running the callback", m->id, m->dst);
+			MSGV("msg-accepted-for-stopped", "send of message %d to never-started thread %d returned 0 without running the callback", m->id, m->dst);
 		}
 	} else {
 		int qf = sim_qwrite_fails() - m->qfail_before;
 		if (m->exec_count != 0 && m->exec_sync) {
-			sim_violation("msg-fail-but-ran", "send of message %d returned %d although the callback was run directly", m->id, rc);
+			MSGV("msg-fail-but-ran", "send of message %d returned %d although the callback was run directly", m->id, rc);
 		} else if (!m->dst_running) {
-			if (rc != EHOSTDOWN) sim_violation("msg-bad-errno", "send to a not-running thread returned %d, documented is EHOSTDOWN(%d)", rc, EHOSTDOWN);
+			if (rc != EHOSTDOWN) MSGV("msg-bad-errno", "send to a not-running thread returned %d, documented is EHOSTDOWN(%d)", rc, EHOSTDOWN);
 		} else if (qf > 0) {
-			if (rc != sim_qwrite_fail_errno()) sim_violation("msg-bad-errno", "queue write failed with errno %d but the send returned %d", sim_qwrite_fail_errno(), rc);
+			if (rc != sim_qwrite_fail_errno()) MSGV("msg-bad-errno", "queue write failed with errno %d but the send returned %d", sim_qwrite_fail_errno(), rc);
 			sim_probe("msg.send_failed_reported");
 		} else {
-			sim_violation("msg-spurious-failure", "send of message %d returned %d although the destination runs and the queue write did not fail", m->id, rc);
+			MSGV("msg-spurious-failure", "send of message %d returned %d although the destination runs and the queue write did not fail", m->id, rc);
 		}
 	}
 	return rc;
@@ -256,11 +258,11 @@ void world_check_messages(int final) {
 			if (0 == workers) { sim_probe("msg.pvt_no_worker"); continue; }
 		}
 		if (m->rc == 0 && m->exec_count != 1 && final) {
-			sim_violation("msg-lost", "message %d (op %d, dst %d of pool %d, flags %x) was accepted (rc 0) but executed %d times by quiescence", m->id, m->op, m->dst, m->pool, m->flags, m->exec_count);
+			MSGV("msg-lost", "message %d (op %d, dst %d of pool %d, flags %x) was accepted (rc 0) but executed %d times by quiescence", m->id, m->op, m->dst, m->pool, m->flags, m->exec_count);
 			return;
 		}
 		if (m->rc != 0 && m->exec_count != 0) {
-			sim_violation("msg-fail-but-ran", "message %d: send returned %d but the callback ran %d time(s)", m->id, m->rc, m->exec_count);
+			MSGV("msg-fail-but-ran", "message %d: send returned %d but the callback ran %d time(s)", m->id, m->rc, m->exec_count);
 			return;
 		}
 	}
@@ -273,7 +275,7 @@ void world_check_messages(int final) {
 			if (!b->sent || b->rc != 0 || b->exec_count != 1 || b->exec_sync) continue;
 			if (b->pool != a->pool || b->dst != a->dst || b->send_fiber != a->send_fiber) continue;
 			if ((a->invoke_seq < b->invoke_seq) != (a->exec_seq < b->exec_seq)) {
-				sim_violation("msg-reordered", "messages %d and %d from fiber %d to thread %d ran out of send order", a->id, b->id, a->send_fiber, a->dst);
+				MSGV("msg-reordered", "messages %d and %d from fiber %d to thread %d ran out of send order", a->id, b->id, a->send_fiber, a->dst);
 				return;
 			}
 			break; /* adjacent pairs suffice (transitivity), keeps this O(n * gap) */
